@@ -48,8 +48,13 @@ def sessions(r, conformant=False):
         n_msgs = 0 if ending == "eot-empty" else r.choice([1, 1, 2, 3])
         if ending in ("abandoned", "eot-after-bad", "lost", "timeout") and r.random() < 0.4:
             n_msgs = 0
-        for _ in range(n_msgs):
+        for mi_ in range(n_msgs):
             text = json_conformant_text(r) if conformant else None
+            if conformant and mi_ == 0 and r.random() < 0.5:
+                # transfers of one connection may come from different analysers behind a gateway (or name none at all):
+                # every transfer is rendered with the schemas its own first header selects
+                from harness.props import C14
+                text = C14.hub_message(r)[0]
             if text is None and r.random() < 0.08:
                 text = gens.record_text(r, big=True)          # intermediate frames of more than 240 text bytes
                 meta["big"] = meta.get("big", 0) + 1
